@@ -2,6 +2,13 @@
 `kani`: harness-group descriptors (see kani_unit.py)."""
 
 PROPS = {
+    "C03": {
+        "level": "proof",
+        "verus": ["c03_defaulted"],
+        "kani": [],
+        "assumptions": [],
+        "trusted_base": [],
+    },
     "C04": {
         "level": "proof",
         "verus": ["c04_find_value"],
